@@ -18,7 +18,7 @@ pub static DEF: CheckDef = CheckDef {
     rule: "grid: (rows,inner,cols) in 1..3^3 x 4 transpose combinations x 7 leading-dimension patterns (none, equal, \
            left-only, right-only, unit-left, unit-right, two equal) x leading size 2/3 x additive term (absent, \
            [cols], [rows,cols], [1,cols], [1]) - enumerated completely; rand: sizes 1..4, up to two leading dims \
-           with cross unit broadcasting and rank differences; nonfinite: admissible cases whose operands contain zeros, +-inf and NaN (IEEE sum of products: 0*inf = NaN); rank1: dot, vector-matrix, vector-matrix^T, \
+           with cross unit broadcasting and rank differences; large: sizes 5..20 (sometimes 33) with 0..2 leading dims; nonfinite: admissible cases whose operands contain zeros, +-inf and NaN (IEEE sum of products: 0*inf = NaN); rank1: dot, vector-matrix, vector-matrix^T, \
            vector^T-matrix, matrix-vector^T, column-vector forms with optional leading dims; mismatch: an admissible \
            case with one inner dimension perturbed (must panic). Non-trivial = product with inner > 1 or any \
            leading dimension, or a refusal; distinct = distinct (shapes, flags, term shape).",
@@ -33,7 +33,7 @@ pub static DEF: CheckDef = CheckDef {
 const GRID: u64 = 27 * 4 * 7 * 2 * 5;
 
 fn families(t: Tier) -> Vec<(&'static str, u64)> {
-    vec![("grid", GRID), ("rand", t.n(12_000, 300_000)), ("rank1", t.n(2_000, 60_000)), ("mismatch", t.n(3_000, 60_000)), ("nonfinite", t.n(2_000, 60_000))]
+    vec![("grid", GRID), ("rand", t.n(12_000, 300_000)), ("rank1", t.n(2_000, 60_000)), ("mismatch", t.n(3_000, 60_000)), ("nonfinite", t.n(2_000, 60_000)), ("large", t.n(1_500, 40_000))]
 }
 fn floors(_t: Tier) -> Vec<(&'static str, u64)> {
     vec![("evaluations", 15_000), ("admissible_checked", 10_000), ("refusals_observed", 1_500)]
@@ -243,6 +243,17 @@ pub fn run_case(ctx: &mut Ctx, fam: &str, k: u64, r: &mut Rng) {
         }
         "rank1" => {
             let c = gen_rank1(r, k);
+            run_mm(ctx, &c, r, false)
+        }
+        "large" => {
+            // sizes beyond any blocking / unrolling threshold (5..20, occasionally 33), 0..2 leading dims
+            let pick = |r: &mut Rng| -> usize { if r.chance(1, 10) { 33 } else { r.range(5, 20) } };
+            let (m, kk, n) = (pick(r), pick(r), pick(r));
+            let lead: Vec<usize> = match r.below(4) { 0 => vec![], 1 => vec![r.range(2, 3)], 2 => vec![1, 2], _ => vec![2, 1] };
+            let la = if r.chance(1, 3) { vec![] } else { lead.clone() };
+            let lb = if r.chance(1, 3) { vec![] } else if r.chance(1, 3) { lead.iter().map(|_| 1).collect() } else { lead.clone() };
+            let mut c = mk(&la, &lb, m, kk, n, r.chance(1, 2), r.chance(1, 2), r.below(5), "large");
+            c.cell = format!("large|{}", c.cell);
             run_mm(ctx, &c, r, false)
         }
         "nonfinite" => {
